@@ -267,46 +267,7 @@ func runC08(x *Ctx) {
 
 	// ---------------- R3
 	{
-		bad, n := "", 0
-		for _, f := range x.P.ModuleFuncs() {
-			pp := strings.TrimPrefix(x.P.PkgPathOf(f), load.Module+"/")
-			if pp != "token" && pp != "token/delegation" && pp != "token/invocation" && pp != "token/internal/envelope" && pp != "pkg/container" {
-				continue
-			}
-			for _, b := range f.Blocks {
-				for _, in := range b.Instrs {
-					c, ok := in.(ssa.CallInstruction)
-					if !ok {
-						continue
-					}
-					for _, a := range c.Common().Args {
-						if !strings.HasSuffix(a.Type().String(), "codec.Decoder") && !strings.HasSuffix(a.Type().String(), "go-ipld-prime.Decoder") {
-							continue
-						}
-						src := a
-						for {
-							if ct, ok := src.(*ssa.ChangeType); ok {
-								src = ct.X
-								continue
-							}
-							break
-						}
-						switch v := src.(type) {
-						case *ssa.Function:
-							n++
-							if v.Signature.Recv() != nil || !(strings.HasSuffix(v.String(), "codec/dagcbor.Decode") || strings.HasSuffix(v.String(), "codec/dagjson.Decode")) {
-								bad += x.P.Pos(in.Pos()) + ": decoder value " + v.String() + "\n"
-							}
-						case *ssa.Parameter:
-							// forwarded parameter: checked at the caller
-						default:
-							bad += x.P.Pos(in.Pos()) + ": decoder is a computed value (" + src.String() + "), e.g. an options method value\n"
-						}
-					}
-				}
-			}
-		}
-		x.C.Obl("C08.R3", "package-decoders", "-", fmt.Sprintf("all %d decoder values handed to ipld.Decode* are the package functions dagcbor.Decode / dagjson.Decode (which parse the whole input)", n), bad == "" && n >= 8, bad)
+		packageCodecs(x, "C08.R3", 8, "token", "token/delegation", "token/invocation", "token/internal/envelope", "pkg/container")
 	}
 
 	// ---------------- R4
@@ -348,4 +309,57 @@ func callOrder(v paths.VPath, first, second string) bool {
 		}
 	}
 	return false
+}
+
+// packageCodecs: every decoder / encoder value handed to go-ipld-prime in the given packages is one of the
+// package functions dagcbor.Decode / dagjson.Decode / dagcbor.Encode / dagjson.Encode (default options: the whole
+// input is parsed, bytes and links are read as such), never an options method value or another computed value.
+func packageCodecs(x *Ctx, rule string, min int, pkgs ...string) {
+	in := map[string]bool{}
+	for _, p := range pkgs {
+		in[p] = true
+	}
+	bad, n := "", 0
+	for _, f := range x.P.ModuleFuncs() {
+		pp := strings.TrimPrefix(x.P.PkgPathOf(f), load.Module+"/")
+		if !in[pp] {
+			continue
+		}
+		for _, b := range f.Blocks {
+			for _, ins := range b.Instrs {
+				c, ok := ins.(ssa.CallInstruction)
+				if !ok {
+					continue
+				}
+				for _, a := range c.Common().Args {
+					ts := a.Type().String()
+					if !strings.HasSuffix(ts, "codec.Decoder") && !strings.HasSuffix(ts, "go-ipld-prime.Decoder") && !strings.HasSuffix(ts, "codec.Encoder") && !strings.HasSuffix(ts, "go-ipld-prime.Encoder") {
+						continue
+					}
+					src := a
+					for {
+						if ct, ok := src.(*ssa.ChangeType); ok {
+							src = ct.X
+							continue
+						}
+						break
+					}
+					switch v := src.(type) {
+					case *ssa.Function:
+						n++
+						name := v.String()
+						okName := strings.HasSuffix(name, "codec/dagcbor.Decode") || strings.HasSuffix(name, "codec/dagjson.Decode") || strings.HasSuffix(name, "codec/dagcbor.Encode") || strings.HasSuffix(name, "codec/dagjson.Encode")
+						if v.Signature.Recv() != nil || !okName {
+							bad += x.P.Pos(ins.Pos()) + ": codec value " + name + "\n"
+						}
+					case *ssa.Parameter:
+						// forwarded parameter: checked at the caller
+					default:
+						bad += x.P.Pos(ins.Pos()) + ": the codec is a computed value (" + src.String() + "), e.g. an options method value\n"
+					}
+				}
+			}
+		}
+	}
+	x.C.Obl(rule, "package-codecs:"+strings.Join(pkgs, ","), "-", fmt.Sprintf("all %d codec values handed to go-ipld-prime are the package functions dagcbor / dagjson Decode / Encode with default options", n), bad == "" && n >= min, bad)
 }
